@@ -66,7 +66,7 @@ func (c *Component) deleteSessionCheckpoint(sessionID string) {
 	// a failed delete would resurrect it on the next restart, so a Store
 	// error is retried in the background rather than only logged.
 	err := c.checkpointWriter().DeleteEventually(c.Ctx, opdb.NamespaceIPoESessions, sessionID, func(err error) {
-		c.logger.Error("Giving up deleting session checkpoint", "session_id", sessionID, "error", err)
+		c.logger.Error("Session checkpoint delete keeps failing, still retrying", "session_id", sessionID, "error", err)
 	})
 	if err != nil {
 		c.logger.Warn("Failed to delete session checkpoint, retrying", "session_id", sessionID, "error", err)
